@@ -147,6 +147,14 @@ def run(chk):
                 k0, v0 = feats[0]
                 if low(k0) != "unicode-range" and low(k0) not in LANGKEYS:
                     feats = feats + [(k0, r.choice([v for v in VALS if low(v) != low(v0)])), (k0, v0)]
+            if r.chance(0.25):
+                # a language line and a locale line in either order and no region line: the region comes from the locale, not
+                # from the default (= first language) that a table without any region gets
+                feats = [f for f in feats if low(f[0]) not in LANGKEYS]
+                x, y = r.sample(TAGS, 2)
+                i1 = r.range(0, len(feats))
+                feats.insert(i1, (r.choice(["language", "locale"]), x))
+                feats.insert(r.range(i1 + 1, len(feats)), ("locale" if low(feats[i1][0]) == "language" else "language", y))
             p = work / ("s%d_t%d.utb" % (si, ti))
             p.write_text("".join("#+%s:%s\n" % kv for kv in feats) + "space \\s 0\n")
             tabs.append((str(p), feats))
@@ -172,6 +180,8 @@ def run(chk):
             for tq in (t0, t0 + "-" + r.choice(["US", "x-foo", "Latn", "a-b"]), t0.split("-")[0]):
                 queries.append(("language:" + tq, [("language", tq)]))
                 chk.tally("aimed_language_queries")
+        for v in sorted(set(v for k, v in expand(tabs[0][1]) if is_lang(k) and not v.startswith("*")))[:3]:
+            queries.append(("region:" + v, [("region", v)]))
         queries.append(("language:" + r.choice(BADTAGS), None))
         # aimed at the boundary: a query whose score against table 0 is exactly 0 (the weights REGENERATED from the source
         # cancel), and one point to either side
